@@ -174,8 +174,11 @@ class Monitor(object):
                 if idx in self.committed and (self.committed[idx][1] != e[2] or self.committed[idx][0] != e[0]):
                     self.rec('C04', 'position %d reported committed with two different entries (terms %d and %d)'
                              % (idx, self.committed[idx][1], e[2]))
+                first_report = idx not in self.committed
                 self.committed.setdefault(idx, (e[0], e[2]))
-                if not self.kills and nid < RO_BASE:
+                # with dynamic membership only the first report of a position is held against the voters' logs:
+                # members removed (and shut down) since then legitimately shrink the set of holders
+                if not self.kills and nid < RO_BASE and (first_report or not rec.cfg.get('dyn')):
                     # the member set in force when the node decided: its set before or after this step
                     # (a step may append a membership entry after having advanced the commit index)
                     after = set(SIM.nid_of(x) for x in g(o, 'otherNodes')) | {nid}
